@@ -117,6 +117,16 @@ func (x *Exec) callFn(st *State, fn *ssa.Function, bind []*Val, args []*Val, pos
 		st.heaps, st.pc, st.top, st.havocs = ns.heaps, ns.pc, ns.top, ns.havocs
 		return vals, nil
 	}
+	if con := x.w.contracts[name]; con != nil && x.abstracted[fn.Name()] && fn.Signature.Recv() == nil {
+		if len(x.w.readPrefixes(fn)) > 0 {
+			return nil, fmt.Errorf("abstracts %s: the function reads the heap", fn.Name())
+		}
+		x.trusted["abstracted spec function (used through its proved contract): "+con.Key] = true
+		x.absCall = true
+		vals, err := x.callByContract(st, fn, con, args, pos)
+		x.absCall = false
+		return vals, err
+	}
 	if con := x.w.contracts[name]; con != nil {
 		if con.Opaque {
 			return x.callOpaque(st, fn, con, args, pos)
@@ -311,7 +321,9 @@ func (x *Exec) callByContract(st *State, fn *ssa.Function, con *Contract, args [
 			return c
 		})
 	}
-	if !con.NoAlloc {
+	abs := x.absCall
+	x.absCall = false
+	if !con.NoAlloc && !abs {
 		x.bumpTop(st)
 	}
 	// results
@@ -323,6 +335,17 @@ func (x *Exec) callByContract(st *State, fn *ssa.Function, con *Contract, args [
 			hint = fn.Name() + "_" + con.ResultNames[i]
 		}
 		v := x.fresh(rs.At(i).Type(), hint)
+		if abs {
+			// the result is a function of the arguments
+			var flat []*Term
+			for _, a := range args {
+				flat = append(flat, a.C...)
+			}
+			cs := flatten(rs.At(i).Type())
+			for j, c := range cs {
+				v.C[j] = tb.ZExt(c.sort, tb.App(fmt.Sprintf("abs:%s#%d.%d", fn.Name(), i, j), c.hsort(), flat...))
+			}
+		}
 		for _, f := range x.validity(v, x.refOK(st)) {
 			x.fact(f)
 		}
@@ -579,10 +602,7 @@ func (x *Exec) builtin(st *State, b *ssa.Builtin, com *ssa.CallCommon, args []*V
 			return x.intVal(a.C[2]), nil
 		case *types.Map:
 			mt := com.Args[0].Type().Underlying().(*types.Map)
-			l := tb.App("maplen:"+typeKey(mt), 64, a.C[0], x.mapVersion(st, mt))
-			x.fact(tb.Cmp("bvule", l, tb.BV(64, 1<<sizeBits-1)))
-			x.fact(tb.Implies(tb.Eq(a.C[0], tb.BV(64, 0)), tb.Eq(l, tb.BV(64, 0))))
-			return x.intVal(l), nil
+			return x.intVal(x.mapLen(st, mt, a.C[0])), nil
 		}
 		return nil, fmt.Errorf("UNSUPPORTED len of %s", com.Args[0].Type())
 	case "cap":
@@ -797,7 +817,16 @@ func init() {
 		rt := fn.Signature.Results().At(0).Type()
 		et := rt.Underlying().(*types.Pointer).Elem()
 		key := x.tb.Bin("bvxor", m.C[1], x.tb.ZExt(64, m.C[0]))
-		return []*Val{{T: rt, C: []*Term{x.tb.BV(64, 1)}, A: &Addr{prefix: "X:" + typeKey(et), keys: []*Term{key}}}}, nil
+		return []*Val{{T: rt, C: []*Term{x.tb.BV(64, 1)}, A: &Addr{prefix: "X:" + ghostTypeName(et), keys: []*Term{key}}}}, nil
+	}
+	// ghost record per (message identity, extension descriptor identity)
+	intrinsics["gocv_extSlot"] = func(x *Exec, st *State, fn *ssa.Function, args []*Val, pos token.Pos) ([]*Val, error) {
+		m, e := args[0], args[1]
+		rt := fn.Signature.Results().At(0).Type()
+		et := rt.Underlying().(*types.Pointer).Elem()
+		mk := x.tb.Bin("bvxor", m.C[1], x.tb.ZExt(64, m.C[0]))
+		ek := x.tb.Bin("bvxor", e.C[1], x.tb.ZExt(64, e.C[0]))
+		return []*Val{{T: rt, C: []*Term{x.tb.BV(64, 1)}, A: &Addr{prefix: "X:" + ghostTypeName(et), keys: []*Term{mk, ek}}}}, nil
 	}
 	intrinsics["gocv_sliceRef"] = func(x *Exec, st *State, fn *ssa.Function, args []*Val, pos token.Pos) ([]*Val, error) {
 		return []*Val{x.intVal(args[0].C[0])}, nil
@@ -1230,4 +1259,13 @@ func (x *Exec) fnWrites(fn *ssa.Function, w map[string]bool, seen map[*ssa.Funct
 			}
 		}
 	}
+}
+
+// ghostTypeName: ghost record types come from the spec library, which is overlaid on every
+// loaded package; the copies denote one ghost heap, so the package is dropped from the name.
+func ghostTypeName(t types.Type) string {
+	if n, ok := t.(*types.Named); ok {
+		return "ghost." + n.Obj().Name()
+	}
+	return typeKey(t)
 }
